@@ -46,12 +46,22 @@ MANIFEST = dict(
          'text, an accepted position indexes lines[line-1][:column] safely, every public Script method taking a '
          'position carries the decorator or only delegates to one that does. Pure helpers under the query '
          'methods (get_on_completion_name regex branch, _get_code, cut_value_at_position) are modelled with '
-         'Python slice semantics and proved total and correct w.r.t. Model.Text positions. Tie: translator + '
-         'exhaustive small-scope correspondence of the real wrapper + whole-API fuzzing (a test, labelled so).',
-    note='Modelled not verified: parso (tokenizer, error recovery), the inference engine. Totality of those is '
-         'sampled by the api stream only. Sandbox: typeshed is empty; the resulting exceptions are listed as '
-         'known findings keyed on (exception class, innermost jedi frame).',
-    technique='Lean 4 proof over hand-written model + translator-generated constants + differential correspondence + API fuzzing',
+         'Python slice semantics and proved total and correct w.r.t. Model.Text positions. The argument scan '
+         'behind Signature.index and keyword completion (helpers._iter_arguments) is transcribed over parso nodes '
+         'with `.value` of a non-leaf = AttributeError and `children[k]` out of range = IndexError explicit; the '
+         'translator lists every `.value` read with the tests that dominate it; iterArguments_total: with the '
+         'guards found in the source the scan completes on EVERY list of well-formed parso nodes one of which '
+         'starts before the cursor (any types, values, nesting, cursor); iterArguments_unguarded_eq_raises: '
+         'without the guard in front of `before.value` the nodes of `f(a.x =` raise. Tie: translator + '
+         'exhaustive small-scope correspondence of the real wrapper + correspondence of the real '
+         '_iter_arguments with the model on the node lists of every typed prefix + whole-API fuzzing and the '
+         'systematic typed-call stream (tests, labelled so).',
+    note='Modelled not verified: parso (tokenizer, error recovery; the well-formedness facts WF of its trees), '
+         'the inference engine. Totality of those is sampled by the api / typed streams only. Sandbox: typeshed '
+         'is empty; the resulting exceptions are listed as known findings keyed on (exception class, innermost '
+         'jedi frame).',
+    technique='Lean 4 proof over hand-written model + translator-generated constants and guard tables + '
+              'differential correspondence + API fuzzing + systematic keystroke-by-keystroke enumeration of calls',
     design='5.C01')
 LEAN_TARGETS = ['JediModel.Props.C01', 'JediModel.Drivers.C01']
 
@@ -533,7 +543,7 @@ def typed_item(item):
     from jedi.api import helpers
     head, stmt = c01_calls.HEAD, item['stmt']
     full = item.get('full', False)
-    cursor_mode = item.get('cursor', False)
+    mode = item.get('mode', 'prefix')
     max_results = item.get('max_results', 3)
     t0 = time.process_time()
     out = {'id': item['id'], 'prefixes': 0, 'queries': 0, 'objects': 0, 'with_sig': 0, 'errors': [],
@@ -560,13 +570,20 @@ def typed_item(item):
 
     for n in c01_calls.cuts(stmt, item.get('start', 0)):
         typed = stmt[:n]
-        code = head + (stmt if cursor_mode else typed)
+        if mode == 'cursor':        # the whole statement is there, the cursor after n characters
+            tail = stmt
+        elif mode == 'delete':      # one character deleted (`==` -> `=`, `a.x` -> `ax`, `, ` -> ` `)
+            tail = stmt[:n - 1] + stmt[n:]
+            typed = stmt[:n - 1]
+        else:                       # typing: n characters are there
+            tail = typed
+        code = head + tail
         line, col = c01_calls.end_position(head + typed)
         out['prefixes'] += 1
         queries = list(TYPED_LIGHT)
-        if full or c01_calls.hot(stmt, n):
+        if full or item.get('heavy_all') or c01_calls.hot(stmt, n):
             queries += TYPED_HEAVY
-        cur = {'typed': typed, 'cursor': cursor_mode, 'line': line, 'column': col}
+        cur = {'typed': typed, 'tail': tail, 'mode': mode, 'line': line, 'column': col}
         # one Script per prefix (a Script made later for other text re-uses and mutates the
         # cached tree of an earlier one, so results of an earlier prefix are never touched again)
         script = jedi.Script(code)
@@ -603,7 +620,7 @@ def typed_item(item):
             key = json.dumps([children, line, col], sort_keys=True)
             if key not in seen_ia:
                 seen_ia.add(key)
-                out['iterargs'].append({'typed': typed, 'cursor': cursor_mode, 'children': children,
+                out['iterargs'].append({'typed': typed, 'tail': tail, 'mode': mode, 'children': children,
                                         'line': line, 'col': col,
                                         'impl': iterargs_real(details._children, details._position)})
     out['cpu'] = round(time.process_time() - t0, 2)
@@ -615,19 +632,33 @@ def stream_typed_start(ctx):
     streams do); returns a join function -> (items, results)"""
     import threading
     rng = ctx.subrng('typed')
-    items = c01_calls.lines(rng, ctx.size(30, 700), ctx.size(12, None))
+    items = c01_calls.lines(rng, ctx.size(16, 400), ctx.size(7, None))
     for it in items:
-        it['full'] = not ctx.quick
+        # thorough: every query at every prefix; the unabridged attribute walk at every prefix for
+        # the systematic part
+        it['heavy_all'] = not ctx.quick
+        it['full'] = (not ctx.quick) and it['kinds'][0] in ('sys', 'ctx')
         it['max_results'] = ctx.size(3, 5)
-    # a share of the statements: complete text, cursor at every column of the statement
+    # regression inputs first: corpus/C01/typed-*.json, every query at every prefix
+    import glob
+    corpus = []
+    for k, path in enumerate(sorted(glob.glob(os.path.join(common.CORPUS_DIR, 'C01', 'typed-*.json')))):
+        with open(path, encoding='utf-8') as f:
+            c = json.load(f)
+        corpus.append({'id': 'k%d' % k, 'stmt': c['stmt'], 'start': c.get('start', 0), 'kinds': c['kinds'],
+                       'full': not ctx.quick, 'heavy_all': True, 'max_results': 5})
+    # a share of the statements: complete text, cursor at every column of the statement; and
+    # the statement with one character deleted (a small edit of a valid program: `==` -> `=`,
+    # a dropped comma / dot / bracket), cursor at the edit
     extra = []
-    for it in items:
-        if rng.random() < ctx.size(0.2, 0.5):
-            c = dict(it)
-            c['cursor'] = True
-            c['id'] = 'c%s' % it['id']
-            extra.append(c)
-    items = items + extra
+    for mode, share in (('cursor', ctx.size(0.1, 0.3)), ('delete', ctx.size(0.12, 0.3))):
+        for it in corpus[:3] + items:
+            if it in corpus or rng.random() < share:
+                c = dict(it)
+                c['mode'] = mode
+                c['id'] = '%s%s' % (mode[0], it['id'])
+                extra.append(c)
+    items = corpus + items + extra
     # long statements first: the chunks of parallel_map are contiguous, so interleave by length
     order = sorted(range(len(items)), key=lambda i: -len(items[i]['stmt']))
     jobs = 14
@@ -677,7 +708,7 @@ def stream_typed_finish(ctx, reqs, join):
     sites = {}
     for r in results:
         it = by_id[r['id']]
-        fam = 'typed/' + ('cursor' if it.get('cursor') else 'prefix')
+        fam = 'typed/' + it.get('mode', 'prefix')
         for k in ('prefixes', 'queries', 'objects', 'with_sig', 'suppressed'):
             tot[k] += r[k]
         tot['cpu'] += r['cpu']
@@ -686,7 +717,7 @@ def stream_typed_finish(ctx, reqs, join):
         for k in (kinds[1:2] or ['-']) + ctxk:
             d = ctx.hist.setdefault('typed', {})
             d[k] = d.get(k, 0) + r['prefixes']
-        ctx.count('typed', ('stmt', it['stmt'], bool(it.get('cursor'))), nontrivial=r['with_sig'] > 0,
+        ctx.count('typed', ('stmt', it['stmt'], it.get('mode', 'prefix')), nontrivial=r['with_sig'] > 0,
                   bucket=fam, sample={'statement': it['stmt'], 'kinds': it['kinds'], 'prefixes': r['prefixes'],
                                       'prefixes_with_signature': r['with_sig'], 'queries': r['queries']})
         # every (prefix, query) is one evaluation of the direct oracle
@@ -695,7 +726,7 @@ def stream_typed_finish(ctx, reqs, join):
         s['nontrivial'] += r['queries']
         ctx.evaluations += r['queries']
         for e in r['errors']:
-            source = c01_calls.HEAD + (it['stmt'] if e['cursor'] else e['typed'])
+            source = c01_calls.HEAD + e['tail']
             key = (e['exception'], e['site'])
             sites[key] = sites.get(key, 0) + 1
             case = {'source': source, 'line': e['line'], 'column': e['column'], 'method': e['method'],
@@ -707,7 +738,7 @@ def stream_typed_finish(ctx, reqs, join):
                                'frames': e.get('frames', '')}, how=how)
         for ia in r['iterargs']:
             reqs.append({'op': 'iterargs', 'children': ia['children'], 'line': ia['line'], 'col': ia['col']})
-            cases.append((('iterargs', it['stmt'], ia['typed'], ia['cursor'], ia['line'], ia['col']), ia['impl']))
+            cases.append((('iterargs', ia['tail'], ia['typed'], ia['mode'], ia['line'], ia['col']), ia['impl']))
     ctx.notes.append('typed stream: %d statements, %d prefixes (%d with a resolved signature), %d queries, '
                      '%d result objects walked, %.0f cpu-s; internal-exception sites: %s'
                      % (len(results), tot['prefixes'], tot['with_sig'], tot['queries'], tot['objects'], tot['cpu'],
@@ -741,7 +772,8 @@ def stream_known(ctx):
             ctx.fail('api', 'result attribute raised %s at %s' % (cls, site),
                      {'source': src, 'line': line, 'column': col, 'method': method, 'attribute': attribute,
                       'exception': cls, 'site': site, 'family': 'probe'},
-                     expected='completes normally', observed={'exception': cls, 'site': site, 'message': short(str(e), 200)},
+                     expected='completes normally',
+                     observed={'exception': cls, 'site': site, 'message': short(str(e), 200), 'frames': exc_frames(e)},
                      how=how)
 
     src = 'class C:\n    def m(self):\n        return 1\n'
@@ -765,6 +797,19 @@ def stream_known(ctx):
     attr_probe(src7, '[g.get_type_hint() for n in jedi.Script(source).infer(6, 20) for g in n.infer()]',
                lambda: [g.get_type_hint() for n in jedi.Script(src7).infer(6, 20) for g in n.infer()],
                'infer.infer', 'Name.get_type_hint', 6, 20)
+    src8 = 'lam = lambda l1: l1\nr = lam()\nr'
+    attr_probe(src8, 'jedi.Script(source).infer(3, 1)', lambda: jedi.Script(src8).infer(3, 1), 'infer', None, 3, 1)
+    src9 = 'try:\n    pass\nexcept A as e'
+    attr_probe(src9, '[n.get_type_hint() for n in jedi.Script(source).get_names()]',
+               lambda: [n.get_type_hint() for n in jedi.Script(src9).get_names()], 'get_names', 'Name.get_type_hint')
+    src10 = 'f0(zz=1, zz'
+    attr_probe(src10, 'jedi.Script(source).get_references(1, 11)', lambda: jedi.Script(src10).get_references(1, 11),
+               'get_references', None, 1, 11)
+    src11 = 'def f0(): pass\nf0(\n    zz=1,\n    zz'
+    attr_probe(src11, 'jedi.Script(source).get_references(4, 6)', lambda: jedi.Script(src11).get_references(4, 6),
+               'get_references', None, 4, 6)
+    src12 = 'def f(p):\n    return p\nr = f(a.x=1)\nr'
+    attr_probe(src12, 'jedi.Script(source).infer(4, 1)', lambda: jedi.Script(src12).infer(4, 1), 'infer', None, 4, 1)
     src6 = '[\n'
     attr_probe(src6, 'jedi.Script(source).complete()', lambda: jedi.Script(src6).complete(), 'complete', None)
 
@@ -821,15 +866,15 @@ def compare(ctx, cases, answers):
                                short({'source': text, 'line': line, 'column': col, 'method': lab, 'impl': impl, 'model': model}))
             oracle_position(ctx, stream, text, line, col, impl, how, {'method': lab, 'family': family})
         elif stream == 'iterargs':
-            _, stmt, typed, cursor, line, col = key
+            _, tail, typed, mode, line, col = key
             n_args = len(impl) if isinstance(impl, list) else -1
-            ctx.count('iterargs', (typed, cursor, line, col, stmt if cursor else ''), nontrivial=n_args != 1 or impl[0] != [0, '', False],
+            ctx.count('iterargs', (tail, line, col), nontrivial=n_args != 1 or impl[0] != [0, '', False],
                       bucket='args=%s' % (min(n_args, 5) if n_args >= 0 else 'exception'),
                       sample={'typed': typed, 'impl': impl})
             if ans != impl:
-                ctx.tie_broken('correspondence:iterargs', short({'typed': typed, 'cursor': cursor, 'position': [line, col],
+                ctx.tie_broken('correspondence:iterargs', short({'text below the head': tail, 'mode': mode, 'position': [line, col],
                                                                  'impl': impl, 'model': ans}, 600))
-                iterargs_oracle(ctx, stmt, typed, cursor, line, col, impl)
+                iterargs_oracle(ctx, tail, typed, mode, line, col, impl)
         elif stream in ('oncompletion', 'getcode', 'cut'):
             model = ans if not isinstance(ans, dict) else 'EXC:' + ans.get('exc', '?')
             ctx.count('helpers', key, nontrivial=impl != '', bucket=stream)
@@ -838,11 +883,11 @@ def compare(ctx, cases, answers):
                 helper_oracle(ctx, stream, key, impl)
 
 
-def iterargs_oracle(ctx, stmt, typed, cursor, line, col, impl):
+def iterargs_oracle(ctx, tail, typed, mode, line, col, impl):
     """failing-input search for a disagreement of the argument scan: the property itself on the
     public API -- get_signatures() at that position and every attribute of its results"""
     import jedi
-    source = c01_calls.HEAD + (stmt if cursor else typed)
+    source = c01_calls.HEAD + tail
     errs = []
     try:
         api_walk.walk(jedi.Script(source), line, col, lambda *a: None, lambda m, a, e: errs.append((m, a, e)),
@@ -853,7 +898,7 @@ def iterargs_oracle(ctx, stmt, typed, cursor, line, col, impl):
         cls, site = exc_key(e)
         ctx.fail('api', ('result attribute raised %s at %s' if a else 'internal exception %s at %s') % (cls, site),
                  {'source': source, 'line': line, 'column': col, 'method': m, 'attribute': a, 'exception': cls,
-                  'site': site, 'family': 'typed/iterargs', 'typed': typed},
+                  'site': site, 'family': 'typed/iterargs/' + mode, 'typed': typed},
                  expected='completes normally', observed={'exception': cls, 'site': site, 'message': short(str(e), 200)},
                  how='jedi.Script(source).%s(line, column), then %s' % (m, a))
 
@@ -947,6 +992,12 @@ def run(ctx):
         'totality of parso error recovery and of the inference engine is NOT proved: stream api is fuzzing in support of the claim, not a theorem',
         'sandbox: jedi/third_party/typeshed is empty; exceptions caused by that are listed as known findings keyed on (class, innermost jedi frame)',
         'Python str.isalnum/\\w/\\d (unicode tables) enter the helper models as per-request character classes',
+        'parso trees are well-formed in the sense of Lemmas/IterArgs.WF (leaves have a value; inner nodes are not names, '
+        'have a first child at their own position; argument / star_expr nodes have two children); a parso node is truthy; '
+        'only Operator / Keyword leaves compare equal to a str (stream iterargs compares the real scan with the model on '
+        'the node lists of every typed prefix)',
+        'which test dominates which `.value` read of _iter_arguments is computed by translator/gen_c01.py:value_reads '
+        '(python ast; enclosing if/elif tests, earlier conjuncts of `and`, early returns; single-assignment aliases)',
     ]
     ctx.obligations['exhaustive'] = True
 
